@@ -68,7 +68,8 @@ type frame struct {
 	caller           *frame
 	fn               *ssa.Function
 	block, prevBlock *ssa.BasicBlock
-	env              map[ssa.Value]value // dynamic values of SSA variables
+	info             *funcInfo
+	regs             []value // dynamic values of SSA variables, indexed by info.index
 	locals           []value
 	defers           *deferred
 	result           value
@@ -89,10 +90,58 @@ func (fr *frame) get(key ssa.Value) value {
 	case *ssa.Global:
 		return fr.i.globalAddr(key)
 	}
-	if r, ok := fr.env[key]; ok {
-		return r
+	if idx, ok := fr.info.index[key]; ok {
+		if r := fr.regs[idx]; r != nil {
+			return r
+		}
 	}
 	panic(fmt.Sprintf("get: no value for %T: %v", key, key.Name()))
+}
+
+func (fr *frame) set(key ssa.Value, v value) {
+	if v == nil {
+		v = nilResult{}
+	}
+	fr.regs[fr.info.index[key]] = v
+}
+
+// nilResult marks a register written with "no value" (call without result).
+type nilResult struct{}
+
+type funcInfo struct {
+	index map[ssa.Value]int
+	n     int
+}
+
+func (w *World) funcInfoFor(fn *ssa.Function) *funcInfo {
+	if v, ok := w.fnInfo.Load(fn); ok {
+		return v.(*funcInfo)
+	}
+	fi := &funcInfo{index: map[ssa.Value]int{}}
+	add := func(v ssa.Value) {
+		if _, ok := fi.index[v]; !ok {
+			fi.index[v] = fi.n
+			fi.n++
+		}
+	}
+	for _, p := range fn.Params {
+		add(p)
+	}
+	for _, fv := range fn.FreeVars {
+		add(fv)
+	}
+	for _, l := range fn.Locals {
+		add(l)
+	}
+	for _, b := range fn.Blocks {
+		for _, in := range b.Instrs {
+			if v, ok := in.(ssa.Value); ok {
+				add(v)
+			}
+		}
+	}
+	w.fnInfo.Store(fn, fi)
+	return fi
 }
 
 func (i *interpreter) globalAddr(g *ssa.Global) *value {
@@ -199,15 +248,15 @@ func visitInstr(fr *frame, instr ssa.Instruction) continuation {
 				v = zero(instr.X.Type().Underlying().(*types.Chan).Elem())
 			}
 			if instr.CommaOk {
-				fr.env[instr] = tuple{v, ok}
+				fr.set(instr, tuple{v, ok})
 			} else {
-				fr.env[instr] = v
+				fr.set(instr, v)
 			}
 			break
 		}
 		if instr.Op == token.MUL {
 			if sr, ok := fr.get(instr.X).(*symRef); ok {
-				fr.env[instr] = i.selectElem(sr.idx, sr.elems)
+				fr.set(instr, i.selectElem(sr.idx, sr.elems))
 				break
 			}
 			addr := fr.get(instr.X).(*value)
@@ -215,38 +264,38 @@ func visitInstr(fr *frame, instr ssa.Instruction) continuation {
 				panic(targetPanic{v: i.runtimeErr("invalid memory address or nil pointer dereference")})
 			}
 			i.access(fr, addr, false)
-			fr.env[instr] = load(deref(instr.X.Type()), addr)
+			fr.set(instr, load(deref(instr.X.Type()), addr))
 			break
 		}
-		fr.env[instr] = i.unop(instr, fr.get(instr.X))
+		fr.set(instr, i.unop(instr, fr.get(instr.X)))
 
 	case *ssa.BinOp:
-		fr.env[instr] = i.binop(fr, instr.Op, instr.X.Type(), fr.get(instr.X), fr.get(instr.Y))
+		fr.set(instr, i.binop(fr, instr.Op, instr.X.Type(), fr.get(instr.X), fr.get(instr.Y)))
 
 	case *ssa.Call:
 		fn, args := prepareCall(fr, &instr.Call)
-		fr.env[instr] = call(fr.i, fr, instr.Pos(), fn, args)
+		fr.set(instr, call(fr.i, fr, instr.Pos(), fn, args))
 
 	case *ssa.ChangeInterface:
-		fr.env[instr] = fr.get(instr.X)
+		fr.set(instr, fr.get(instr.X))
 
 	case *ssa.ChangeType:
-		fr.env[instr] = fr.get(instr.X) // (can't fail)
+		fr.set(instr, fr.get(instr.X)) // (can't fail)
 
 	case *ssa.Convert:
-		fr.env[instr] = i.conv(fr, instr.Type(), instr.X.Type(), fr.get(instr.X))
+		fr.set(instr, i.conv(fr, instr.Type(), instr.X.Type(), fr.get(instr.X)))
 
 	case *ssa.SliceToArrayPointer:
-		fr.env[instr] = sliceToArrayPointer(instr.Type(), instr.X.Type(), fr.get(instr.X))
+		fr.set(instr, sliceToArrayPointer(instr.Type(), instr.X.Type(), fr.get(instr.X)))
 
 	case *ssa.MakeInterface:
-		fr.env[instr] = iface{t: instr.X.Type(), v: fr.get(instr.X)}
+		fr.set(instr, iface{t: instr.X.Type(), v: fr.get(instr.X)})
 
 	case *ssa.Extract:
-		fr.env[instr] = fr.get(instr.Tuple).(tuple)[instr.Index]
+		fr.set(instr, fr.get(instr.Tuple).(tuple)[instr.Index])
 
 	case *ssa.Slice:
-		fr.env[instr] = i.slice(fr, fr.get(instr.X), fr.get(instr.Low), fr.get(instr.High), fr.get(instr.Max))
+		fr.set(instr, i.slice(fr, fr.get(instr.X), fr.get(instr.Low), fr.get(instr.High), fr.get(instr.Max)))
 
 	case *ssa.Return:
 		switch len(instr.Results) {
@@ -324,17 +373,17 @@ func visitInstr(fr *frame, instr ssa.Instruction) continuation {
 		i.sched.spawn(fn, args, instr.Pos())
 
 	case *ssa.MakeChan:
-		fr.env[instr] = i.sched.makeChan(int(i.concreteInt(fr.get(instr.Size), "channel capacity")))
+		fr.set(instr, i.sched.makeChan(int(i.concreteInt(fr.get(instr.Size), "channel capacity"))))
 
 	case *ssa.Alloc:
 		var addr *value
 		if instr.Heap {
 			// new
 			addr = new(value)
-			fr.env[instr] = addr
+			fr.set(instr, addr)
 		} else {
 			// local
-			addr = fr.env[instr].(*value)
+			addr = fr.regs[fr.info.index[instr]].(*value)
 		}
 		*addr = zero(deref(instr.Type()))
 
@@ -349,26 +398,26 @@ func visitInstr(fr *frame, instr ssa.Instruction) continuation {
 		for i := range slice {
 			slice[i] = zero(tElt)
 		}
-		fr.env[instr] = slice[:l]
+		fr.set(instr, slice[:l])
 
 	case *ssa.MakeMap:
-		fr.env[instr] = makeMap(instr.Type().Underlying().(*types.Map).Key(), 0)
+		fr.set(instr, makeMap(instr.Type().Underlying().(*types.Map).Key(), 0))
 
 	case *ssa.Range:
-		fr.env[instr] = i.rangeIter(fr, fr.get(instr.X), instr.X.Type())
+		fr.set(instr, i.rangeIter(fr, fr.get(instr.X), instr.X.Type()))
 
 	case *ssa.Next:
-		fr.env[instr] = fr.get(instr.Iter).(iter).next()
+		fr.set(instr, fr.get(instr.Iter).(iter).next())
 
 	case *ssa.FieldAddr:
 		p := fr.get(instr.X).(*value)
 		if p == nil {
 			panic(targetPanic{v: i.runtimeErr("invalid memory address or nil pointer dereference")})
 		}
-		fr.env[instr] = &(*p).(structure)[instr.Field]
+		fr.set(instr, &(*p).(structure)[instr.Field])
 
 	case *ssa.Field:
-		fr.env[instr] = fr.get(instr.X).(structure)[instr.Field]
+		fr.set(instr, fr.get(instr.X).(structure)[instr.Field])
 
 	case *ssa.IndexAddr:
 		x := fr.get(instr.X)
@@ -377,11 +426,11 @@ func visitInstr(fr *frame, instr ssa.Instruction) continuation {
 		case []value:
 			if s, ok := idx.(*Sym); ok && scalarElems(x) {
 				i.symBoundsCheck(s, len(x))
-				fr.env[instr] = &symRef{elems: x, idx: s}
+				fr.set(instr, &symRef{elems: x, idx: s})
 				break
 			}
 			k := i.indexFor(fr, idx, len(x))
-			fr.env[instr] = &x[k]
+			fr.set(instr, &x[k])
 		case *value: // *array
 			if x == nil {
 				panic(targetPanic{v: i.runtimeErr("invalid memory address or nil pointer dereference")})
@@ -389,11 +438,11 @@ func visitInstr(fr *frame, instr ssa.Instruction) continuation {
 			a := (*x).(array)
 			if s, ok := idx.(*Sym); ok && scalarElems(a) {
 				i.symBoundsCheck(s, len(a))
-				fr.env[instr] = &symRef{elems: a, idx: s}
+				fr.set(instr, &symRef{elems: a, idx: s})
 				break
 			}
 			k := i.indexFor(fr, idx, len(a))
-			fr.env[instr] = &a[k]
+			fr.set(instr, &a[k])
 		default:
 			panic(fmt.Sprintf("unexpected x type in IndexAddr: %T", x))
 		}
@@ -401,10 +450,10 @@ func visitInstr(fr *frame, instr ssa.Instruction) continuation {
 	case *ssa.Index:
 		x := fr.get(instr.X)
 		idx := fr.get(instr.Index)
-		fr.env[instr] = i.indexValue(fr, x, idx, instr.Type())
+		fr.set(instr, i.indexValue(fr, x, idx, instr.Type()))
 
 	case *ssa.Lookup:
-		fr.env[instr] = i.lookup(fr, instr, fr.get(instr.X), fr.get(instr.Index))
+		fr.set(instr, i.lookup(fr, instr, fr.get(instr.X), fr.get(instr.Index)))
 
 	case *ssa.MapUpdate:
 		m := fr.get(instr.Map)
@@ -422,14 +471,14 @@ func visitInstr(fr *frame, instr ssa.Instruction) continuation {
 		}
 
 	case *ssa.TypeAssert:
-		fr.env[instr] = typeAssert(fr.i, instr, fr.get(instr.X).(iface))
+		fr.set(instr, typeAssert(fr.i, instr, fr.get(instr.X).(iface)))
 
 	case *ssa.MakeClosure:
 		var bindings []value
 		for _, binding := range instr.Bindings {
 			bindings = append(bindings, fr.get(binding))
 		}
-		fr.env[instr] = &closure{instr.Fn.(*ssa.Function), bindings}
+		fr.set(instr, &closure{instr.Fn.(*ssa.Function), bindings})
 
 	case *ssa.Phi:
 		panic("unreachable: phis are processed at block entry")
@@ -457,7 +506,7 @@ func visitInstr(fr *frame, instr ssa.Instruction) continuation {
 				r = append(r, v)
 			}
 		}
-		fr.env[instr] = r
+		fr.set(instr, r)
 
 	default:
 		panic(fmt.Sprintf("unexpected instruction: %T", instr))
@@ -544,7 +593,8 @@ func callSSA(i *interpreter, caller *frame, callpos token.Pos, fn *ssa.Function,
 		fmt.Fprintf(os.Stderr, "%*sEntering %s\n", i.depth, "", fn)
 	}
 	if fn.Parent() == nil {
-		if ov := i.overrides[fn]; ov != nil {
+		if ov := i.overrides[fn]; ov != nil && !(caller != nil && caller.fn == ov) {
+			// (a call from the override function itself reaches the original)
 			i.stubs["override "+fn.String()+" -> "+ov.Name()]++
 			fn = ov
 		} else if i.skipExt == fn {
@@ -557,6 +607,13 @@ func callSSA(i *interpreter, caller *frame, callpos token.Pos, fn *ssa.Function,
 			return ext(fr, args)
 		}
 		if fn.Blocks == nil {
+			if i.initing {
+				// package initialisers: a foreign constructor yields the zero value; using
+				// it later on a path surfaces as a nil dereference that replay does not confirm
+				i.stubs["zero result for foreign call during package init: "+fn.String()]++
+				fr := &frame{i: i, caller: caller, fn: fn}
+				return zeroResult(fn)(fr, args)
+			}
 			i.unsupported("call of body-less function without stub: %s", fn)
 		}
 	}
@@ -584,18 +641,19 @@ func callSSA(i *interpreter, caller *frame, callpos token.Pos, fn *ssa.Function,
 		fn:     fn,
 		pos:    fn.Pos(),
 	}
-	fr.env = make(map[ssa.Value]value)
+	fr.info = i.w.funcInfoFor(fn)
+	fr.regs = make([]value, fr.info.n)
 	fr.block = fn.Blocks[0]
 	fr.locals = make([]value, len(fn.Locals))
 	for i, l := range fn.Locals {
 		fr.locals[i] = zero(deref(l.Type()))
-		fr.env[l] = &fr.locals[i]
+		fr.set(l, &fr.locals[i])
 	}
 	for i, p := range fn.Params {
-		fr.env[p] = args[i]
+		fr.set(p, args[i])
 	}
 	for i, fv := range fn.FreeVars {
-		fr.env[fv] = env[i]
+		fr.set(fv, env[i])
 	}
 	for fr.block != nil {
 		runFrame(fr)
@@ -679,7 +737,7 @@ func executePhis(fr *frame) []ssa.Instruction {
 			fr.phitemps = append(fr.phitemps, fr.get(phi.Edges[predIndex]))
 		}
 		for i, phi := range phis {
-			fr.env[phi.(*ssa.Phi)] = fr.phitemps[i]
+			fr.set(phi.(*ssa.Phi), fr.phitemps[i])
 		}
 	}
 	return nonPhis
